@@ -11,4 +11,5 @@ type Prop struct {
 // Registry maps property ids to their checks.
 var Registry = map[string]Prop{
 	"C01": {C01, c01Replay},
+	"C10": {C10, c10Replay},
 }
